@@ -91,6 +91,17 @@ func runDistrCase(t *rapid.T, cfg DCfg, inflows []distrInflow, blocks int, check
 			userPaymentsAccepted += map[bool]int{true: 1}[res.OK()]
 			check(r)
 		}
+		if restartAfter != nil && restartAfter[b] {
+			r.RestartNode()
+		}
+		if rolledBackAfter != nil && rolledBackAfter[b] {
+			// a proposal that re-plans the configuration is executed and rolled back (its second message
+			// fails); nothing about the configuration in force may change, the model is not told
+			if r.RolledBackProposal(t, cfg) {
+				rolledBackProposals++
+			}
+			check(r)
+		}
 		if dropShareAfter == b {
 			// governance re-plans the configuration between two blocks: one named share is removed (its
 			// account may still have a leftover booked), the books are looked at right after the update
@@ -99,8 +110,8 @@ func runDistrCase(t *rapid.T, cfg DCfg, inflows []distrInflow, blocks int, check
 					nc := DCfg{Subs: append([]DSub{}, cfg.Subs...)}
 					k := dropShareIdx % n
 					nc.Subs[i].Shares = append(append([]DShare{}, cfg.Subs[i].Shares[:k]...), cfg.Subs[i].Shares[k+1:]...)
-					res := RunMsg(r.W.App, r.Ctx, &distrtypes.MsgUpdateParams{Authority: GovAuthority(), SubDistributors: nc.Build().SubDistributors})
-					if res.OK() {
+					written, _ := r.Gov(&distrtypes.MsgUpdateParams{Authority: GovAuthority(), SubDistributors: nc.Build().SubDistributors})
+					if written {
 						cfg = nc
 						r.Model.Cfg = nc
 						sharesDropped++
@@ -118,6 +129,36 @@ func runDistrCase(t *rapid.T, cfg DCfg, inflows []distrInflow, blocks int, check
 		}
 	}
 	return fractional, r
+}
+
+// rolledBackAfter: after these blocks a proposal that would re-plan the configuration is executed and
+// rolled back (nil: never); rolledBackProposals counts those whose first message differed from the
+// configuration in force.
+var rolledBackAfter map[int]bool
+var rolledBackProposals int
+
+// restartAfter: after these blocks the node process restarts (nil: never)
+var restartAfter map[int]bool
+
+// drawRolledBack draws the blocks after which a rolled-back proposal happens (one case in two has some).
+func drawRolledBack(t *rapid.T, blocks int) {
+	rolledBackAfter, rolledBackProposals, restartAfter = nil, 0, nil
+	if rapid.IntRange(0, 2).Draw(t, "nodeRestarts") == 0 {
+		restartAfter = map[int]bool{}
+		for b := 0; b < blocks; b++ {
+			if rapid.IntRange(0, 2).Draw(t, fmt.Sprintf("restartAfter%d", b)) == 0 {
+				restartAfter[b] = true
+			}
+		}
+	}
+	if rapid.Bool().Draw(t, "rolledBackProposals") {
+		rolledBackAfter = map[int]bool{}
+		for b := 0; b < blocks; b++ {
+			if rapid.IntRange(0, 2).Draw(t, fmt.Sprintf("rolledBackAfter%d", b)) == 0 {
+				rolledBackAfter[b] = true
+			}
+		}
+	}
 }
 
 // dropShareAfter / dropShareIdx: C03 lets governance remove a named share after that block (-1: never).
@@ -172,6 +213,8 @@ func TestC03(t *testing.T) {
 			dropShareAfter = rapid.IntRange(0, blocks-2).Draw(t, "dropShareAfter")
 		}
 		defer func() { dropShareAfter = -1 }()
+		drawRolledBack(t, blocks)
+		defer func() { rolledBackAfter, restartAfter = nil, nil }()
 		fractional, r := runDistrCase(t, cfg, inflows, blocks, func(r *DistrRun) { r.CheckBooks(t) })
 		if r == nil {
 			st.Case(false, nil, "main_alias_rejected_by_validation")
@@ -180,6 +223,12 @@ func TestC03(t *testing.T) {
 		cl := cfg.Classes()
 		if fractional {
 			cl["fractional_leftover"] = true
+		}
+		if rolledBackProposals > 0 {
+			cl["proposal_replanning_the_configuration_rolled_back"] = true
+		}
+		if r.Restarts > 0 {
+			cl["node_restarted_between_blocks"] = true
 		}
 		nd := map[string]bool{}
 		for _, in := range inflows {
